@@ -315,6 +315,12 @@ func (e *Engine) reflectIntrinsic(name string, fn *ssa.Function, a []Val) (Val, 
 		case nil:
 			return e.KB(true), true
 		}
+		if r.t != nil {
+			switch r.t.Underlying().(type) {
+			case *types.Struct, *types.Array, *types.Basic:
+				e.goPanic("reflect: call of reflect.Value.IsNil on %v Value", r.t)
+			}
+		}
 	case "Elem":
 		switch v := e.rvGet(r).(type) {
 		case Ptr:
@@ -329,6 +335,16 @@ func (e *Engine) reflectIntrinsic(name string, fn *ssa.Function, a []Val) (Val, 
 			return RV{t: v.typ, v: v.v}, true
 		}
 	case "Interface":
+		if r.t == nil {
+			e.goPanic("reflect: call of reflect.Value.Interface on zero Value")
+		}
+		if _, isIface := r.t.Underlying().(*types.Interface); isIface {
+			// a Value of interface kind (struct field, element): the value it holds
+			if in, ok := e.rvGet(r).(Iface); ok {
+				return in, true
+			}
+			return Iface{}, true
+		}
 		return Iface{typ: r.t, v: e.rvGet(r)}, true
 	case "Int":
 		_, sg, _ := intWidth(r.t)
@@ -508,6 +524,7 @@ func (e *Engine) reflectTypeMethod(rt RT, m string, a []Val) Val {
 		case *types.Map:
 			return e.rtypeIface(u.Elem())
 		}
+		e.goPanic("reflect: Elem of invalid type %v", t)
 	case "Key":
 		return e.rtypeIface(t.Underlying().(*types.Map).Key())
 	case "NumField":
